@@ -76,8 +76,19 @@ Record sys := mk_sys {
   o_single : bool;                  (* no meta grid: _create_single_tile *)
   o_recheck : bool;
   o_reload : bool;
-  o_up : coord -> Z                 (* content the upstream delivers for a tile *)
+  o_up : coord -> Z;                (* content the upstream delivers for a tile *)
+  o_expire : bool;                  (* the tile manager has an expire timestamp (refresh_before / seeding) *)
+  o_old : coord -> option Z         (* expired files present at the start (image of the file), see below *)
 }.
+
+(* Expiry.  `cache s` holds the files that is_cached accepts: present and, with an expire timestamp, newer than
+   it.  Files that exist but are expired at the start are `o_old`; they never change, a tile that is written
+   during the run is not expired (the expire timestamp lies before the start of the run) and shadows its old
+   file.  So "file exists" = in the cache or old, "is_cached" (exists and not stale) = in the cache.
+   TileManager.is_cached = cache.is_cached (os.path.exists, skipped when the Tile object has a source) followed by
+   cache.load_tile_metadata (os.lstat): one look at the file, one step. *)
+Definition file (S : sys) (c : list (coord * Z)) (t : coord) : option Z :=
+  match lookup c t with Some v => Some v | None => o_old S t end.
 
 Inductive pc :=
 | Load (todo : list coord)
@@ -140,21 +151,23 @@ Definition step (S : sys) (s : state) (p : nat) : state * obs :=
     match p_pc pr with
     (* self.cache.load_tiles(tiles, with_metadata, dimensions=dimensions) *)
     | Load [] =>
-      (set_proc s p (with_pc pr (Check (filter (fun t => negb (has_src (p_src pr) t)) (p_req pr)))), OSilent)
+      (set_proc s p (with_pc pr (Check (filter (fun t => o_expire S || negb (has_src (p_src pr) t)) (p_req pr)))), OSilent)
     | Load (t :: todo) =>
-      match lookup (cache s) t with
+      match file S (cache s) t with
       | Some v => (set_proc s p (with_src pr (Load todo) ((t, Some v) :: p_src pr)), ORead t true)
       | None => (set_proc s p (with_pc pr (Load todo)), ORead t false)
       end
     (* for tile in tiles: if self._is_tile_missing(tile, ...): uncached_tiles.append(tile) *)
     | Check [] => (set_proc s p (with_pc pr (next_unit (units S (p_unc pr)))), OSilent)
     | Check (t :: todo) =>
+      (* is_cached: with an expire timestamp every tile is looked at (stat), otherwise only the missing ones *)
       if cached (cache s) t
-      then (set_proc s p (with_pc pr (if o_reload S then Reload t todo else Check todo)), ORead t true)
+      then (set_proc s p (with_pc pr (if has_src (p_src pr) t then Check todo
+                                      else if o_reload S then Reload t todo else Check todo)), ORead t true)
       else (set_proc s p (mk_proc (Check todo) (p_req pr) (p_src pr) (p_unc pr ++ [t])), ORead t false)
     | Reload t todo =>
-      (set_proc s p (with_src pr (Check todo) ((t, lookup (cache s) t) :: p_src pr)),
-       ORead t (cached (cache s) t))
+      (set_proc s p (with_src pr (Check todo) ((t, file S (cache s) t) :: p_src pr)),
+       ORead t (is_some (file S (cache s) t)))
     (* with self.tile_mgr.lock(tile): *)
     | Lock m rest =>
       match lookup (locks s) (o_key S m) with
@@ -187,9 +200,11 @@ Definition step (S : sys) (s : state) (p : nat) : state * obs :=
                 (set_nth (procs s) p (with_pc pr (Store m todo rest))),
        OWrite t (o_up S t))
     (* else: self.cache.load_tile(tile)   (single tile, still under the lock) *)
+    (* load_tile does nothing for a Tile object that has a source (the expired image loaded at the start) *)
     | LoadUnder m rest =>
-      (set_proc s p (with_src pr (Unlock m false rest) ((m, lookup (cache s) m) :: p_src pr)),
-       ORead m (cached (cache s) m))
+      if has_src (p_src pr) m then (set_proc s p (with_pc pr (Unlock m false rest)), OSilent)
+      else (set_proc s p (with_src pr (Unlock m false rest) ((m, file S (cache s) m) :: p_src pr)),
+            ORead m (is_some (file S (cache s) m)))
     | Unlock m after rest =>
       (mk_state (cache s) (remove_key (locks s) (o_key S m)) (fetched s)
                 (set_nth (procs s) p
@@ -198,8 +213,8 @@ Definition step (S : sys) (s : state) (p : nat) : state * obs :=
     (* tiles = [Tile(coord) for coord in meta_tile.tiles]; self.cache.load_tiles(tiles)  (lock released) *)
     | LoadAfter m [] rest => (set_proc s p (with_pc pr (next_unit rest)), OSilent)
     | LoadAfter m (t :: todo) rest =>
-      (set_proc s p (with_src pr (LoadAfter m todo rest) ((t, lookup (cache s) t) :: p_src pr)),
-       ORead t (cached (cache s) t))
+      (set_proc s p (with_src pr (LoadAfter m todo rest) ((t, file S (cache s) t) :: p_src pr)),
+       ORead t (is_some (file S (cache s) t)))
     | Done => (s, OSkip)
     end
   end.
@@ -263,8 +278,11 @@ Definition g_members (g : gconf) (m : coord) : list coord :=
 Definition g_key (g : gconf) (m : coord) : coord :=
   if g_meta g then match g_members g m with [] => m | t :: _ => meta_main g t end else m.
 
+Definition grid_sys_x (g : gconf) (recheck reload : bool) (up : coord -> Z) (expire : bool) (old : coord -> option Z) : sys :=
+  mk_sys (g_main g) (g_members g) (g_key g) (negb (g_meta g)) recheck reload up expire old.
+(* no expire timestamp, no expired files *)
 Definition grid_sys (g : gconf) (recheck reload : bool) (up : coord -> Z) : sys :=
-  mk_sys (g_main g) (g_members g) (g_key g) (negb (g_meta g)) recheck reload up.
+  grid_sys_x g recheck reload up false (fun _ => None).
 
 (* ------------------------------------------------------------------------------------------
    TileLocker.lock_filename: lock_cache_id + '-' + '-'.join(map(str, coord)) + '.lck'
@@ -328,6 +346,26 @@ Definition cache_sub (a b : list (coord * Z)) : bool :=
   forallb (fun kv => opt_eqb Z.eqb (lookup a (fst kv)) (lookup b (fst kv))) a.
 
 (* observed: trace, per-requester responses, final cache (one entry per file), upstream log (oldest first) *)
+Definition files_sub (S : sys) (c : list (coord * Z)) (final : list (coord * Z)) : bool :=
+  forallb (fun kv => opt_eqb Z.eqb (file S c (fst kv)) (Some (snd kv))) final.
+Definition known_sub (l final : list (coord * Z)) : bool :=
+  forallb (fun kv => is_some (lookup final (fst kv))) l.
+
+(* with expired files: oldl = the expired files at the start (S must have o_old = lookup oldl) *)
+Definition trace_ok_x (S : sys) (c0 oldl : list (coord * Z)) (reqs : list (list coord))
+           (tr : list (nat * obs)) (resps : list (list (coord * option Z)))
+           (final : list (coord * Z)) (ups : list coord) : bool :=
+  match replay S (init c0 reqs) tr with
+  | None => false
+  | Some s =>
+    let s' := settle S s (List.length reqs) in
+    all_done s'
+    && list_eqb resp_eqb (map response (procs s')) resps
+    && files_sub S (cache s') final && known_sub (cache s') final && known_sub oldl final
+    && list_eqb coord_eqb (rev (fetched s')) ups
+    && match locks s' with [] => true | _ => false end
+  end.
+
 Definition trace_ok (S : sys) (c0 : list (coord * Z)) (reqs : list (list coord))
            (tr : list (nat * obs)) (resps : list (list (coord * option Z)))
            (final : list (coord * Z)) (ups : list coord) : bool :=
